@@ -3,7 +3,10 @@ use std::iter::FusedIterator;
 use std::mem::MaybeUninit;
 use std::panic::{AssertUnwindSafe, catch_unwind, resume_unwind};
 use std::ptr::NonNull;
+#[cfg(not(folo_verif_loom))]
 use std::sync::{Arc, Mutex};
+#[cfg(folo_verif_loom)]
+use loom::sync::{Arc, Mutex};
 
 use crate::opaque::pool_raw::RawOpaquePoolIterator;
 use crate::{NEVER_POISONED, PooledMut, RawOpaquePool, RawOpaquePoolThreadSafe};
